@@ -895,9 +895,10 @@ def run(tier, seed, replay=None):
         n_fail += len(failing)
         for tid, v in sorted(verdicts.items()):
             verdicts_all[tid] = v[:3]
-            if v[0].startswith("MODEL:"):
+            if v[2] != 0:           # code and model disagreed somewhere (also in traces with a contract failure)
                 n_drift += 1
-                chk.note_drift(f"trace {tid} ({meta[tid]['origin']}): {v[0]} at step {v[1]}")
+                chk.note_drift(f"trace {tid} ({meta[tid]['origin']}): "
+                               f"{v[0] if v[0].startswith('MODEL:') else 'model mismatch'} at step {v[2]}")
         if failing:
             classify(chk, failing, b, meta, known)
         for tid, prog in prog_fail.items():
